@@ -3,6 +3,8 @@ package gen
 import (
 	"strconv"
 	"strings"
+
+	"verifharness/internal/rng"
 )
 
 // AdvCase is one member of a size-parametrised adversarial family.
@@ -151,4 +153,38 @@ func Adversarial(size int) []AdvCase {
 	sb.WriteString(" } }\n")
 	add("exclusive-siblings", sb.String())
 	return out
+}
+
+// Equidistant returns a schema whose type names, field names, argument names and enum values are
+// pairwise at the same edit distance (1) from the misspelt names used by the document, so that the
+// order of the "Did you mean …?" suggestions is decided only by tie-breaking (DESIGN §7 R10).
+// k (2…20) is the number of candidates per name. The document is invalid on purpose.
+func Equidistant(r *rng.R, k int) AdvCase {
+	if k < 2 {
+		k = 2
+	}
+	if k > 20 {
+		k = 20
+	}
+	letters := "abcdefghijklmnopqrstuvwxy"
+	perm := []byte(letters)
+	for i := len(perm) - 1; i > 0; i-- {
+		j := r.Intn(i + 1)
+		perm[i], perm[j] = perm[j], perm[i]
+	}
+	var sdl, fields, args, vals strings.Builder
+	for i := 0; i < k; i++ {
+		c := string(perm[i])
+		sdl.WriteString("type D" + c + "g { id: ID }\n")
+		fields.WriteString("  f" + c + "x: Int\n")
+		if i > 0 {
+			args.WriteString(", ")
+		}
+		args.WriteString("a" + c + "x: Int")
+		vals.WriteString(" V" + strings.ToUpper(c) + "X")
+	}
+	sdl.WriteString("enum E {" + vals.String() + " }\n")
+	sdl.WriteString("type Query {\n" + fields.String() + "  g(" + args.String() + "): Int\n  e(v: E): Int\n}\n")
+	doc := "{ fzx g(azx: 1) e(v: VZX) ...X }\nfragment X on Dzg { id }\n"
+	return AdvCase{Name: "equidistant-suggestions", SchemaSDL: sdl.String(), Doc: doc}
 }
